@@ -18,7 +18,8 @@ Vocabulary
 * `NsUses ns o` (`Spec/Uses.lean`): some locale of the namespace uses `o` at an accessible key.
 
 Hypothesis: the keys of every default locale are distinct at every level (`NDLoc` /
-`DistinctLoc`, decidable) — locales are `BTreeMap`s.  No freshness hypothesis is needed here.
+`DistinctLoc`, decidable) — locales are `BTreeMap`s; discharged on the pipeline in
+`Theorems/C20Pipeline.lean` (`C20_pipeline`).  No freshness hypothesis is needed here.
 
 About `C20_full_statement` of `Theorems/C20.lean`: as written (`∃ v ∈ leafValuesK l.keys` over *all*
 keys of *all* locales) its right-to-left direction is **false**: a key that only a non-default
@@ -271,6 +272,10 @@ no accessor is generated).  The check succeeds, no builder key asks for plural d
 value of `fr` contains a `Plurals` node. -/
 private def en1 : Loc := .mk (s "en") (s "en") [(s "a", .lit (.str (s "x") none))] [] 0
 private def fr1 : Loc := .mk (s "fr") (s "fr") [(s "a", .lit (.str (s "y") none)), (s "b", plur)] [] 0
+
+/-- the hypothesis `NDLoc`/`DistinctLoc` of `C20_check_uses_iff` holds for this default locale, and the run
+    below succeeds: the hypotheses of the theorems are jointly satisfiable -/
+example : DistinctLoc en1 = true ∧ NDLoc 5 en1 := ⟨by decide, NDLoc_of_distinct 5 en1 (by decide)⟩
 
 private theorem gkLit (l : Lit) (k : IOL) : getKeysInner 1000000 (.lit l) k true = .ok (.lit l.ty) := by
   rw [show (1000000 : Nat) = 999999 + 1 from rfl, getKeysInner]; simp
